@@ -933,6 +933,18 @@ def copyser(F, R):
             R.ob('C16.fields', not missing and base_ser, {'func': f.q, 'fields': fields, 'archived': sorted(ref & set(fields)), 'exempt': sorted(SER_EXEMPT), 'front_end_base_archived': base_ser})
             if missing: R.find('C16.fields', f, 'missing:' + ','.join(missing), 'serialize does not archive data member(s) %s' % missing)
             if not base_ser: R.find('C16.fields', f, 'no-base', 'serialize does not archive the front-end base object')
+            # the front-end base is archived in place (loading must write into this object, not into a copy of it)
+            for i, n in f.calls():
+                if n.get('n') == 'base_object':
+                    # how is the result used: directly as an argument / bound to a reference, or copied into a by-value local
+                    for m in f.nodes:
+                        if m and m['k'] == 'decl':
+                            for v in m['vars']:
+                                if v['hasinit'] and not v['ref']:
+                                    from rules_order import dependency_closure
+                                    if i in dependency_closure(f, v['init']):
+                                        R.ob('C16.fields', False, {'func': f.q, 'front_end_copy': v['n']})
+                                        R.find('C16.fields', f, 'base-copied', 'the front-end base object is copied into the local %s before it is archived: loading fills the copy and the machine keeps its constructor defaults' % v['n'], where=f.at(i))
         sp = f.d.get('sp', '')
         if sp == 'copy_ctor' or f.n == 'operator=':
             if f.d.get('implicit') or f.d.get('defaulted'): continue
